@@ -31,8 +31,8 @@ Section C02.
   Hypothesis ltb_total : forall a b, str_ltb a b = false -> str_ltb b a = false -> a = b.
 
   Variable prog : list (call M writer rmask).
-  (* ids are given, not generated (a generated id depends on the rng, not on the contents) *)
-  Hypothesis prog_ok : forall t c, nth_error prog t = Some c -> call_ok idfun c.
+  (* no restriction on the calls: an Update / Add with WithGenIDIfAbsent and an empty id is, here, a
+     call whose rng offers no candidate; calls with candidates: section C02_generated_ids below *)
   Variable v0 : vstate M.
   Variable c0 : cstate M.
   Hypothesis c0_sorted : sorted str_ltb (c_items c0).
